@@ -5,7 +5,7 @@ properties C02 / C01 / C04).
 
 The translator rewrites the BODIES of `Value.Not`, `And`, `Or`, `Negate`, `Absolute`,
 `Add`, `Subtract`, `Multiply`, `Divide`, `Modulo`, `LessThan`, `GreaterThan`,
-`LessThanOrEqualTo`, `GreaterThanOrEqualTo`, `mustTypeCheck` and
+`LessThanOrEqualTo`, `GreaterThanOrEqualTo`, `typeCheck`, `mustTypeCheck` and
 `forceShortCircuitType` statement by statement.  What it cannot take from the source
 is how a Go value is read as a model value and what the untranslated callees do; both
 are fixed here, once (the GIVEN API: every definition of this file is part of the
@@ -34,8 +34,9 @@ transliteration layer `CtyModel/Ops.lean`, `Ops2.lean` and the `Num` model:
   or number, or the range-refined unknown number that `RefineWith` answers) and are
   `Res.unmodelled` elsewhere; `NewValue`'s collapse of a closed one-point range into
   the known number is `Value.numRangeResult`;
-* `Value.Equals` is the hand-written `Value.equals`; `Type.Equals` is `Ty.equals`;
-  `typeCheck` is the hand-written `Value.typeCheck`.
+* `Value.Equals` is the hand-written `Value.equals`; `Type.Equals` is `Ty.equals`; the test
+  `_, unknown := v.v.(*unknownType)` is `Value.isUnk`; an error made by `fmt.Errorf` is the
+  constant head of its format string.
 
 Core only (imported by the generated file).
 -/
@@ -96,15 +97,9 @@ def errText : Option String → String
   | some s => s
   | none => "nil"
 
-/-- `typeCheck(required, ret, values...)`: the short-circuit pointer and the error -/
-def typeCheck (required ret : Ty) (vs : List Value) : Res (Option Value × Option String) :=
-  match Value.typeCheck required vs with
-  | .ok .none => .ok (none, none)
-  | .ok .dynamic => .ok (some dynVal, none)
-  | .ok .unknown => .ok (some (unknown ret), none)
-  | .panic w => .ok (none, some w)
-  | .err e => .err e
-  | .unmodelled => .unmodelled
+/-- an error value made by `fmt.Errorf(format, …)`: the constant head of its format string (the text before the first
+`:` or `%`); the arguments are not evaluated -/
+def errorf (head : String) : Option String := some head
 
 /-! ### refinements, on the shapes the operation methods present -/
 /-- `v.RefineNotNull()` -/
